@@ -311,8 +311,9 @@ fn const_j<'tcx>(tcx: TyCtxt<'tcx>, env: ty::TypingEnv<'tcx>, c: &MirConst<'tcx>
     match c {
         MirConst::Unevaluated(uv, _) => {
             f.push(("name", J::s(tcx.def_path_str(uv.def))));
-            if uv.promoted.is_some() {
+            if let Some(pi) = uv.promoted {
                 f.push(("promoted", J::b(true)));
+                f.push(("promoted_idx", J::i(pi.index() as i128)));
             }
         }
         MirConst::Ty(_, tc) => {
@@ -770,6 +771,27 @@ fn extract<'tcx>(tcx: TyCtxt<'tcx>) -> J {
             blocks.push(block_j(tcx, env, body, data));
         }
         f.push(("blocks", J::arr(blocks)));
+        // promoted constants (e.g. `&ProtectMode::ReadWrite`): tiny bodies, dumped the same way
+        let mut proms = vec![];
+        if kind != DefKind::Closure || true {
+            let pbodies = tcx.promoted_mir(did);
+            for (pi, pb) in pbodies.iter_enumerated() {
+                let mut pls = vec![];
+                for (_l, d) in pb.local_decls.iter_enumerated() {
+                    pls.push(ty_j(tcx, d.ty));
+                }
+                let mut pblocks = vec![];
+                for (_bb, data) in pb.basic_blocks.iter_enumerated() {
+                    pblocks.push(block_j(tcx, env, pb, data));
+                }
+                proms.push(J::obj(vec![
+                    ("idx", J::i(pi.index() as i128)),
+                    ("locals", J::arr(pls)),
+                    ("blocks", J::arr(pblocks)),
+                ]));
+            }
+        }
+        f.push(("promoted", J::arr(proms)));
         fns.push(J::obj(f));
     }
 
